@@ -3,7 +3,6 @@ package grpcbridge
 import (
 	"log/slog"
 	"net/http"
-	"slices"
 	"strings"
 
 	"github.com/renbou/grpcbridge/bridgelog"
@@ -98,8 +97,8 @@ func NewWebBridge(router Router, opts ...BridgeOption) *WebBridge {
 //  4. All other requests are handled by [webbridge.TranscodedHTTPBridge].
 func (b *WebBridge) ServeHTTP(w http.ResponseWriter, r *http.Request) {
 	// Case-insensitive comparison as specified in the RFC https://datatracker.ietf.org/doc/html/rfc6455#section-4.2.1.
-	if ascii.EqualFold(r.Header.Get("Connection"), "upgrade") && ascii.EqualFold(r.Header.Get("Upgrade"), "websocket") {
-		if slices.Contains(r.Header.Values("Sec-WebSocket-Protocol"), "grpc-websockets") {
+	if headerContainsToken(r.Header.Values("Connection"), "upgrade", true) && headerContainsToken(r.Header.Values("Upgrade"), "websocket", true) {
+		if headerContainsToken(r.Header.Values("Sec-WebSocket-Protocol"), "grpc-websockets", false) {
 			b.gRPCWebSocketBridge.ServeHTTP(w, r)
 		} else {
 			b.transcodedWebSocketBridge.ServeHTTP(w, r)
@@ -107,12 +106,38 @@ func (b *WebBridge) ServeHTTP(w http.ResponseWriter, r *http.Request) {
 		return
 	}
 
-	if strings.HasPrefix(r.Header.Get("Content-Type"), "application/grpc-web") {
+	if isGRPCWebContentType(r.Header.Get("Content-Type")) {
 		b.gRPCWebHTTPBridge.ServeHTTP(w, r)
 		return
 	}
 
 	b.transcodedHTTPBridge.ServeHTTP(w, r)
+}
+
+// headerContainsToken reports whether any of the header lines, each treated as a comma-separated list with
+// optional whitespace as specified in RFC 7230, contains the specified token.
+func headerContainsToken(values []string, token string, fold bool) bool {
+	for _, v := range values {
+		for _, t := range strings.Split(v, ",") {
+			t = strings.Trim(t, " \t")
+			if t == token || (fold && ascii.EqualFold(t, token)) {
+				return true
+			}
+		}
+	}
+
+	return false
+}
+
+// isGRPCWebContentType reports whether the media type, which is case-insensitive and can be followed by parameters,
+// is application/grpc-web with any suffix, such as +proto or -text.
+func isGRPCWebContentType(contentType string) bool {
+	const prefix = "application/grpc-web"
+
+	mediaType, _, _ := strings.Cut(contentType, ";")
+	mediaType = strings.Trim(mediaType, " \t")
+
+	return len(mediaType) >= len(prefix) && ascii.EqualFold(mediaType[:len(prefix)], prefix)
 }
 
 // WithMarshalers allows using custom marshalers for transcoding-based handlers,
